@@ -307,7 +307,7 @@ P["C19"] = {
 }
 
 def _c20_runs(tier, seed):
-    parts = [["mm", "8"], ["mm", "16"], ["mm", "32"], ["bolt"], ["conv", "1"], ["conv", "2"], ["conv", "3"], ["conv", "4"], ["rnsp"]]
+    parts = [["mm", "8"], ["mm", "16"], ["mm", "32"], ["bolt"], ["conv", "1"], ["conv", "2"], ["conv", "3"], ["conv", "4"], ["rnsp"], ["ckks"]]
     runs = [{"seed": seed, "args": a} for a in parts]
     if tier == "quick":
         runs += [{"seed": seed, "args": ["big"]}]
